@@ -16,6 +16,7 @@ package gateway
 //@ func getServiceBackendRef
 //@ props C13
 //@ ensures found: result1 != nil ==> 0 <= result0 && result0 < len(rule.BackendRefs) && isSvc(rule.BackendRefs[result0], serviceName) && sameBackend(result1, rule.BackendRefs[result0]) && fresh(result1)
+//@ ensures found_exists: result1 != nil ==> (exists k :: 0 <= k && k < len(rule.BackendRefs) && isSvc(rule.BackendRefs[k], serviceName))
 //@ ensures first: result1 != nil ==> (forall k :: 0 <= k && k < result0 ==> !isSvc(rule.BackendRefs[k], serviceName))
 //@ ensures none: result1 == nil ==> result0 == 0 && (forall k :: 0 <= k && k < len(rule.BackendRefs) ==> !isSvc(rule.BackendRefs[k], serviceName))
 //@ ensures framed: unchangedOutside()
